@@ -175,6 +175,12 @@ def generate(rng, tier, cls):
             data = rng.choice([b'#diffx: version=1.0\n', b'#diffx:',
                                b'#diffx: encoding=utf-8, version=1.0\n'
                                b'#.preamble: length=20\n']) + data
+        elif rng.chance(0.4):
+            # magic numbers of formats a loader might sniff for
+            data = rng.choice([b'\x1f\x8b', b'\x1f\x8b\x08\x00', b'BZh9',
+                               b'\xfd7zXZ\x00', b'PK\x03\x04', b'\xef\xbb\xbf',
+                               b'\xff\xfe', b'\xfe\xff', b'%PDF-', b'\x28\xb5\x2f\xfd',
+                               b'diff --git a/x b/x\n', b'--- a\n+++ b\n']) + data
 
         prod = {'id': 'P1', 'kind': 'raw', 'file': 'f1', 'hex': data.hex()}
     else:
